@@ -496,9 +496,16 @@ OnData(d) ==
   /\ Emit({d}, <<>>)
   /\ UNCHANGED <<relay, retryC, createdC, createC, pingC, pend, ctr, now, sweepAt, pingAt, budget>>
 
+\* create_transports is half way: the IPv4 socket exists (data for IPv4 destinations now leaves at once, overtaking
+\* what waits in the queue), the IPv6 socket is still being opened; the queue is only flushed when both exist
+Transport4Ready(n, cid) ==
+  /\ Has(exit[n], cid) /\ exit[n][cid].enabled /\ ~exit[n][cid].open
+  /\ exit' = [exit EXCEPT ![n] = Put(@, cid, [@[cid] EXCEPT !.open = TRUE])]
+  /\ UNCHANGED <<circ, relay, retryC, createdC, createC, pingC, pend, net, ctr, now, sweepAt, pingAt, hist, budget>>
+
 \* create_transports finished: both outside sockets exist, whatever waited in THIS socket's queue is sent
 TransportsReady(n, cid) ==
-  /\ Has(exit[n], cid) /\ exit[n][cid].enabled /\ ~exit[n][cid].open
+  /\ Has(exit[n], cid) /\ exit[n][cid].enabled /\ (~exit[n][cid].open \/ exit[n][cid].q # <<>>)
   /\ LET ex == exit[n][cid] IN
        /\ exit' = [exit EXCEPT ![n] = Put(@, cid, [ex EXCEPT !.open = TRUE, !.q = <<>>,
                                                        !.act = IF ex.q # <<>> THEN now ELSE @])]
@@ -833,7 +840,7 @@ Core ==
   \/ \E o \in Origins, cid \in 1..ctr.cid, ds \in BOOLEAN : RemoveCircuit(o, cid, ds)
   \/ \E d \in net : Deliver(d)
   \/ NodeTeardown /\ \E n \in Node, cid \in 1..ctr.cid : (~\E q \in pend : q.n = n /\ q.cid = cid) /\ (NodeRemoveRelay(n, cid) \/ NodeRemoveExit(n, cid))
-  \/ \E x \in Node, cid \in 1..ctr.cid : TransportsReady(x, cid)
+  \/ \E x \in Node, cid \in 1..ctr.cid : TransportsReady(x, cid) \/ Transport4Ready(x, cid)
   \/ \E x \in Node, cid \in 1..ctr.cid, p \in 1..ctr.data : ExitReturn(x, cid, p)
   \/ \E n \in Node : AutoTimers /\ ~EarlierDue(n) /\
         ((HasEntries(n) /\ sweepAt[n] <= now /\ Sweep(n))
